@@ -138,10 +138,11 @@ Proof.
       destruct rw as [vw|ew], rc as [vc|ec]; try apply (Hfin (inr (POs _))).
       apply prm_do; [unfold rm_ok; rewrite E1, E2; reflexivity|]. intros [v2|e2]; [apply (Hfin (inl tt))|apply (Hfin (inr (POs e2)))].
   - destruct (str_eqb n SPF || str_eqb n DOCF); [exact IHn|].
-    apply prm_do; [reflexivity|]. intro rk. destruct (is_file_r rk).
-    + apply prm_do; [simpl; apply under_app|]. intros [v|e]; [exact IHn|apply (Hfin (inr (POs e)))].
-    + apply prm_do; [reflexivity|]. intro rk2. destruct (is_dir_r rk2); [|exact IHn].
-      apply prm_rmtree_top; [apply under_app|]. intros [v|e]; [exact IHn|apply (Hfin (inr (POs e)))].
+    apply prm_do; [reflexivity|]. intros [v|e]; [|apply (Hfin (inr (POs e)))].
+    destruct v as [|kd|c|l]; try destruct kd;
+      first [ apply (Hfin (inr (POs ENOENT)))
+            | apply prm_rmtree_top; [apply under_app|]; intros [v1|e]; [exact IHn|apply (Hfin (inr (POs e)))]
+            | apply prm_do; [simpl; apply under_app|]; intros [v1|e]; [exact IHn|apply (Hfin (inr (POs e)))] ].
 Qed.
 
 (* ------------------------------------------------------------------ CInv from "only removes" *)
